@@ -1321,6 +1321,9 @@ VC_ENSURES(VC_ADV_POST_LATCH(parser, VC_RET, VC_OLD(parser->error_flags), VC_OLD
 VC_ENSURES(VC_ADV_POST_TRUE_NO_ERROR(parser, VC_RET))                                             /*@ adv-true-no-error */
 VC_ENSURES(VC_ADV_POST_MONOTONE(parser, VC_OLD(parser->error_flags), VC_OLD(parser->buffer_used))) /*@ adv-cursor-monotone */
 VC_ENSURES(VC_ADV_POST_VERIFY_FALSE(VC_RET, scan_flags))                                          /*@ adv-verify-never-true */
+VC_ENSURES(VC_ADV_POST_FALSE_SAME_DEPTH(parser, VC_RET, scan_flags, VC_OLD(parser->error_flags),
+                                        VC_OLD(parser->depth)))                                    /*@ adv-false-same-depth */
+VC_ENSURES(VC_ADV_POST_LEAVE_OBJECT(parser, VC_RET, scan_flags, VC_OLD(parser->depth)))           /*@ adv-leave-object-closes-it */
 {
 
     if (BINSON_ERROR_NONE != parser->error_flags) {
@@ -1340,8 +1343,11 @@ VC_ENSURES(VC_ADV_POST_VERIFY_FALSE(VC_RET, scan_flags))                        
                     __CPROVER_object_whole(parser->state))
     VC_LOOP_INVARIANT(VC_ADV_LOOP_INV(parser))
     VC_LOOP_INVARIANT(parser->buffer_used >= __CPROVER_loop_entry(parser->buffer_used))
-    VC_LOOP_INVARIANT(((scan_flags & VC_ADV_VERIFY) != 0) ==> proceed)
+    VC_LOOP_INVARIANT(((scan_flags & (VC_ADV_VERIFY | VC_ADV_LEAVE_OBJECT | VC_ADV_VALUE | VC_ADV_LEAVE_ARRAY)) != 0) ==> proceed)
     VC_LOOP_INVARIANT((scan_flags & VC_ADV_VERIFY) == (__CPROVER_loop_entry(scan_flags) & VC_ADV_VERIFY))
+    VC_LOOP_INVARIANT((scan_flags & ~__CPROVER_loop_entry(scan_flags)) == 0)      /* scan flags are only ever cleared */
+    VC_LOOP_INVARIANT(VC_ADV_LOOP_SCAN_INV(parser, scan_flags, __CPROVER_loop_entry(scan_flags), proceed,
+                                           orig_object_depth, orig_array_depth))
     VC_DECREASES(proceed ? (parser->buffer_size - parser->buffer_used) + 1 : 0)
     {
         proceed = false;
